@@ -34,6 +34,10 @@ type Node struct {
 
 type Case struct {
 	Root *Node `json:"root"`
+	// Flat: a left operand that is itself an operator of the same precedence level is printed
+	// without its parentheses (`1 + 2 + "a"`): binary operators are left-associative, so the tree
+	// is the same and the operators must see the same operand values
+	Flat bool `json:"flat,omitempty"`
 }
 
 type val struct {
@@ -136,14 +140,20 @@ func genStr(t *rapid.T, depth int) *Node {
 }
 
 func genCase(t *rapid.T) Case {
+	c := genCase0(t)
+	c.Flat = rapid.IntRange(0, 2).Draw(t, "flat") == 0
+	return c
+}
+
+func genCase0(t *rapid.T) Case {
 	c := genCase1(t)
 	if c.Root.Op == "leaf" && rapid.IntRange(0, 3).Draw(t, "keepleaf") > 0 {
 		// bare literals are only a quarter as frequent as the generator would make them
 		k := c.Root.K
 		if k == "s" {
-			return Case{&Node{Op: "+", L: c.Root, R: genLeaf(t, rapid.SampledFrom([]string{"i", "f", "s"}).Draw(t, "rk"))}}
+			return Case{Root: &Node{Op: "+", L: c.Root, R: genLeaf(t, rapid.SampledFrom([]string{"i", "f", "s"}).Draw(t, "rk"))}}
 		}
-		return Case{&Node{Op: rapid.SampledFrom([]string{"+", "-", "*"}).Draw(t, "wrapop"), L: c.Root, R: genLeaf(t, k)}}
+		return Case{Root: &Node{Op: rapid.SampledFrom([]string{"+", "-", "*"}).Draw(t, "wrapop"), L: c.Root, R: genLeaf(t, k)}}
 	}
 	return c
 }
@@ -152,11 +162,11 @@ func genCase1(t *rapid.T) Case {
 	depth := rapid.IntRange(1, 4).Draw(t, "depth")
 	switch rapid.IntRange(0, 9).Draw(t, "root") {
 	case 0, 1, 2:
-		return Case{genNum(t, "i", depth)}
+		return Case{Root: genNum(t, "i", depth)}
 	case 3, 4:
-		return Case{genNum(t, "f", depth)}
+		return Case{Root: genNum(t, "f", depth)}
 	case 5, 6:
-		return Case{genStr(t, depth)}
+		return Case{Root: genStr(t, depth)}
 	default:
 		op := rapid.SampledFrom(cmpOps).Draw(t, "cmp")
 		if rapid.IntRange(0, 3).Draw(t, "nearpair") == 0 {
@@ -171,20 +181,21 @@ func genCase1(t *rapid.T) Case {
 			if rapid.Bool().Draw(t, "swap") {
 				l, r = r, l
 			}
-			return Case{&Node{Op: op, L: l, R: r}}
+			return Case{Root: &Node{Op: op, L: l, R: r}}
 		}
 		lk := rapid.SampledFrom([]string{"i", "f"}).Draw(t, "lk")
 		rk := rapid.SampledFrom([]string{"i", "f"}).Draw(t, "rk")
 		if op == "==" || op == "!=" {
 			rk = lk // same primitive type only; mixed equality is C06
 		}
-		return Case{&Node{Op: op, L: genNum(t, lk, depth-1), R: genNum(t, rk, depth-1)}}
+		return Case{Root: &Node{Op: op, L: genNum(t, lk, depth-1), R: genNum(t, rk, depth-1)}}
 	}
 }
 
 // ---------- printing ----------
 
 type printer struct {
+	flat bool
 	vars []string // prelude assignments
 	b    strings.Builder
 }
@@ -237,13 +248,27 @@ func (p *printer) expr(n *Node) string {
 		return "(^(" + p.expr(n.L) + "))"
 	default:
 		l := p.expr(n.L)
+		if p.flat && level(n.Op) != 0 && level(n.Op) == level(n.L.Op) {
+			l = strings.TrimSuffix(strings.TrimPrefix(l, "("), ")")
+		}
 		r := p.expr(n.R)
 		return "(" + l + " " + n.Op + " " + r + ")"
 	}
 }
 
+// level is the precedence level of the arithmetic operators (0: not one of them).
+func level(op string) int {
+	switch op {
+	case "+", "-", "|":
+		return 1
+	case "*", "/", "%", "<<", ">>", "&":
+		return 2
+	}
+	return 0
+}
+
 func source(c Case) string {
-	p := &printer{}
+	p := &printer{flat: c.Flat}
 	e := p.expr(c.Root)
 	return strings.Join(append(p.vars, e), "\n")
 }
@@ -671,6 +696,132 @@ func oracleHist(c HistCase, o *h.Obs) *h.Fail {
 	return nil
 }
 
+
+// ---------- sub-check "site": one operator site, many operand pairs ----------
+
+// SiteCase: a function `func(x, y) { return x OP y }` (or a unary one) is called for a row of
+// operand pairs of different kinds. The result of an operator depends on its operand values
+// only - never on what the same source location computed before.
+type SiteCase struct {
+	Op    string  `json:"op"`
+	Pairs []*Node `json:"pairs"` // each a node {Op, L leaf, R leaf} (R nil for unary operators)
+}
+
+func genSite(t *rapid.T) SiteCase {
+	op := rapid.SampledFrom([]string{"+", "+", "+", "-", "*", "/", "%", "&", "|", "<<", ">>", "<", "<=", ">", ">=", "==", "!=", "neg", "inv"}).Draw(t, "siteop")
+	c := SiteCase{Op: op}
+	kinds := func() []string {
+		switch op {
+		case "+":
+			return []string{"i", "f", "s"}
+		case "-", "*", "/", "<", "<=", ">", ">=", "neg":
+			return []string{"i", "f"}
+		}
+		return []string{"i"}
+	}()
+	n := rapid.IntRange(2, 6).Draw(t, "npairs")
+	for i := 0; i < n; i++ {
+		lk := rapid.SampledFrom(kinds).Draw(t, "lk")
+		rk := rapid.SampledFrom(kinds).Draw(t, "rk")
+		if op == "==" || op == "!=" {
+			rk = lk
+		}
+		l := genLeaf(t, lk)
+		l.Prov = "lit"
+		node := &Node{Op: op, L: l}
+		if op != "neg" && op != "inv" {
+			r := genLeaf(t, rk)
+			r.Prov = "lit"
+			if op == "*" && (lk == "s" || rk == "s") {
+				r = &Node{Op: "leaf", K: "i", I: rapid.Int64Range(-2, 6).Draw(t, "cnt"), Prov: "lit"}
+			}
+			node.R = r
+		}
+		c.Pairs = append(c.Pairs, node)
+	}
+	return c
+}
+
+func oracleSite(c SiteCase, o *h.Obs) *h.Fail {
+	if len(c.Pairs) == 0 {
+		o.Excluded = "malformed_case"
+		return nil
+	}
+	p := &printer{}
+	unary := c.Op == "neg" || c.Op == "inv"
+	var sb strings.Builder
+	switch c.Op {
+	case "neg":
+		sb.WriteString("f = func(x) { return -x }\n")
+	case "inv":
+		sb.WriteString("f = func(x) { return ^x }\n")
+	default:
+		sb.WriteString("f = func(x, y) { return x " + c.Op + " y }\n")
+	}
+	sb.WriteString("r = []\n")
+	kinds := map[string]bool{}
+	for _, n := range c.Pairs {
+		if n == nil || n.L == nil || n.Op != c.Op || (!unary && n.R == nil) {
+			o.Excluded = "malformed_case"
+			return nil
+		}
+		call := "f(" + p.leafLit(n.L)
+		k := n.L.K
+		if !unary {
+			call += ", " + p.leafLit(n.R)
+			k += n.R.K
+		}
+		kinds[k] = true
+		sb.WriteString("try {\n r += [" + call + ")]\n} catch e {\n r += [\"ERR\"]\n}\n")
+	}
+	sb.WriteString("r")
+	src := sb.String()
+	o.Key = src
+	o.NonTrivial = len(kinds) >= 2
+	o.Class("site_" + c.Op)
+	got, err := ank.Exec(newEnv(), src)
+	if hp, ok := ank.IsHostPanic(err); ok {
+		return h.Failf("C05|host-panic|"+ank.NormPanic(hp.Value), "source:\n%s\nescaped panic: %v", src, hp.Value)
+	}
+	list, isList := got.([]interface{})
+	if err != nil || !isList || len(list) != len(c.Pairs) {
+		return h.Failf("C05|site|unexpected-error", "source:\n%s\nanko: %v %s", src, err, ank.Describe(got))
+	}
+	for i, n := range c.Pairs {
+		st := &stats{}
+		want, wantErr := refEval(n, st)
+		if st.tooLong {
+			continue
+		}
+		g := list[i]
+		if wantErr {
+			if s, is := g.(string); !is || s != "ERR" {
+				return h.Failf("C05|site|missing-error|"+c.Op, "call %d of\n%s\nreference: error expected\nanko: %s", i+1, src, ank.Describe(g))
+			}
+			continue
+		}
+		ok := false
+		switch want.k {
+		case "i":
+			v, is := g.(int64)
+			ok = is && v == want.i
+		case "f":
+			v, is := g.(float64)
+			ok = is && (math.Float64bits(v) == math.Float64bits(want.f) || (math.IsNaN(v) && math.IsNaN(want.f)))
+		case "s":
+			v, is := g.(string)
+			ok = is && v == want.s
+		case "b":
+			v, is := g.(bool)
+			ok = is && v == want.b
+		}
+		if !ok {
+			return h.Failf("C05|site|wrong-result|"+c.Op+"|"+want.k, "one operator site called for a row of operand pairs: call %d gives another result than the operands alone dictate\nsource:\n%s\nreference (native Go) for call %d: %v\nanko: %s\nall results: %s", i+1, src, i+1, want, ank.Describe(g), ank.Describe(got))
+		}
+	}
+	return nil
+}
+
 func TestC05(t *testing.T) {
 	c := h.New(t, "C05")
 	defer c.Finish()
@@ -678,4 +829,6 @@ func TestC05(t *testing.T) {
 	h.Run(c, "arith", c.N(60000, 500000), genCase, oracle)
 	c.Rule("cached: 1-3 statements that compute integers in the cached band -1..4095 and then write through a pointer / ++ / op= / element / map entry / struct field / parameter, followed by an integer tree over small leaves: the tree must still evaluate to Go's result (no shared mutable boxes behind the small-value fast path); every case counts as non-trivial; distinct by source text")
 	h.Run(c, "cached", c.N(15000, 150000), genHist, oracleHist)
+	c.Rule("site: a function applying ONE operator to its parameters is called for 2-6 operand pairs of different kinds (int64/float64/string edge pools); every call must give what Go computes for that pair alone (errors included), whatever the same source location computed before; non-trivial = the pairs are of >= 2 kind combinations")
+	h.Run(c, "site", c.N(15000, 150000), genSite, oracleSite)
 }
